@@ -359,6 +359,8 @@ func c16HTML(run *core.Run) {
 			run.Count("html_option_cases")
 		case v == "INCONCLUSIVE":
 			run.Inconclusive()
+		case strings.HasPrefix(v, "COMMENTMOVE:") && run.KnownSignature("html-kept-comment-reparented"):
+			// (C03's finding: a kept comment in front of an omitted tag ends up in the neighbouring element)
 		default:
 			key := core.Key(c.String(), []byte(doc))
 			if run.IsKnown(core.Key("*", []byte(doc))) {
